@@ -4,6 +4,7 @@ import ComposeVerif.Lemmas.Path
 import ComposeVerif.Lemmas.Merge
 import ComposeVerif.Lemmas.Unicity
 import ComposeVerif.Lemmas.Reset
+import ComposeVerif.Lemmas.Fuel
 import ComposeVerif.Neg.C04
 /-!
 # C04 — multiple files and documents merge by the Compose override rules
@@ -460,6 +461,35 @@ theorem ipam_same_subnet_merged (mk : KVs → KVs → TPath → Out KVs) (p : TP
     (h : ipamIndex (subnetOf left) cfgs 0 = some i) (hm : mk (cfgs[i]?.getD []) left p = .ok m) :
     ipamFold mk cfgs [left] p = .ok (listSet cfgs i m) := by
   simp [ipamFold, h, hm, Out.bind]
+
+/-! ## 3c. Totality: enough fuel, and no panic site left in `override/merge.go` -/
+
+/-- **fuel sufficiency**: `mergeYaml n e o p` never runs out of fuel once `n ≥ depth o + 2`, for every base, override and
+path (uses the table fact `conv_rules_at_length_three`: the converting mergers sit at patterns of length three) -/
+theorem mergeYaml_fuel_sufficient (n : Nat) (e o : Val) (p : TPath) (h : depth o + 2 ≤ n) (s : String) :
+    mergeYaml n e o p ≠ .panic s :=
+  mergeYaml_never_panics n e o p (by have := cst_le_two p; omega) s
+
+/-- **`override.Merge` never panics** (the model has no panic outcome but the fuel, and the fuel `fuelFor` is enough).
+Before the round-2 repairs this was false: `panic@override.mergeLogging`, `…mergeIPAMConfig`, `…convertIntoMapping`,
+`…mergeMappings`, `…mergeExtraHosts` (C01's findings; pre-fix witness `Neg.PreFix.ipam_panicked`). -/
+theorem merge_never_panics (base over : Val) (s : String) : merge base over ≠ .panic s := by
+  unfold merge
+  cases base <;> cases over <;> first | (simp; done) | skip
+  exact mergeYaml_fuel_sufficient _ _ _ _ (by unfold fuelFor; omega) s
+
+theorem extendService_never_panics (base over : Val) (s : String) : extendService base over ≠ .panic s := by
+  unfold extendService
+  cases base <;> cases over <;> first | (simp; done) | skip
+  exact mergeYaml_fuel_sufficient _ _ _ _ (by unfold fuelFor; omega) s
+
+/-- more fuel never changes a successful result's existence: any fuel above the bound avoids the fuel panic, so the
+choice of `fuelFor` is immaterial -/
+theorem fuelFor_enough (over : Val) : depth over + 2 ≤ fuelFor over := by unfold fuelFor; omega
+
+/-- the unicity indexers never panic either (since the repairs of `mountIndexer` / `envFileIndexer`) -/
+theorem index_never_panics (ix : Indexer) (v : Val) (s : String) : index ix v ≠ .panic s := by
+  cases ix <;> cases v <;> simp only [index] <;> (try split) <;> (try split) <;> simp
 
 /-! ## 4. `enforceUnicity`: one entry per key, the later one wins, the first position is kept -/
 
